@@ -914,7 +914,9 @@ func (r *Remote) addReferenceIfRefSpecMatches(rs config.RefSpec,
 		return nil
 	}
 
-	if forceWithLease != nil {
+	leaseApplies := forceWithLease != nil &&
+		(forceWithLease.RefName.String() == "" || forceWithLease.RefName == cmd.Name)
+	if leaseApplies {
 		if err = r.checkForceWithLease(localRef, cmd, forceWithLease); err != nil {
 			return err
 		}
